@@ -58,7 +58,7 @@ def value_menu(rng):
         ("url", vUri("http://example.com/x?y=z"), "uri"), ("attendee", vCalAddress("mailto:a@example.com"), "caladdress"),
         ("organizer", vCalAddress("mailto:o@example.com"), "caladdress"),
         ("rrule", vRecur({"FREQ": ["WEEKLY"], "BYDAY": ["MO", "FR"], "COUNT": [5]}), "recur"),
-        ("geo", (37.386013, -122.082932), "geo"), ("tzoffsetfrom", timedelta(hours=1), "offset"),
+        ("geo", (37.386013, -122.082932), "geo"), ("geo", rng.choice([(2.5e-06, 51.5), (-4.2e-07, 0.0), (0.0, 179.9999999), (1e-05, -1e-05)]), "geo"), ("tzoffsetfrom", timedelta(hours=1), "offset"),
         ("percent-complete", 50, "int"), ("status", "CONFIRMED", "text"), ("uid", "uid-%d" % rng.randrange(1000), "text"),
     ]
     return rng.choice(menu)
@@ -177,6 +177,29 @@ def setter_histories(ctx, res, rng):
                 res.fail("C02 setters: after serialise + parse a property does not hold the last value supplied through its "
                          "setter with that value's own TZID / VALUE", {"history": hist, "property": name, "text": text[:500]},
                          observed=[repr(getattr(g, "dt", g)), tzid, vparam], expected=[repr(v), want_tzid, "DATE" if kind == "date" else None])
+
+
+def shared_values(ctx, res, rng):
+    """one value object given to add() for two properties (or two components): add() does not change the object it is
+    given, and each property serialises as that value"""
+    import icalendar
+    from icalendar.prop import vDDDTypes, vDatetime, vText
+    for _ in range(200 if ctx.big else 40):
+        d0 = datetime(2024, rng.randrange(1, 13), rng.randrange(1, 28), rng.randrange(24), 30)
+        kind = rng.choice(["naive", "zoned", "utc"])
+        d = d0 if kind == "naive" else d0.replace(tzinfo=zi("Europe/Berlin") if kind == "zoned" else timezone.utc)
+        obj = rng.choice([vDDDTypes, vDatetime])(d)
+        before = [obj.dt, dict(getattr(obj, "params", {}))]
+        ev, td = icalendar.Event(), icalendar.Todo()
+        names = rng.sample(["DTSTART", "DTSTAMP", "CREATED", "LAST-MODIFIED", "DTEND", "X-WHEN"], 3)
+        for n in names[:2]:
+            ev.add(n, obj)
+        td.add(names[2], obj)
+        res.evaluations += 1
+        after = [obj.dt, dict(getattr(obj, "params", {}))]
+        if before[0] != after[0] or before[0].tzinfo is not after[0].tzinfo and str(before[0].tzinfo) != str(after[0].tzinfo):
+            res.fail("C02: add() changed the value object it was given (a value shared between two properties)",
+                     {"names": names, "value": repr(d)}, observed=repr(after[0]), expected=repr(before[0]))
 
 
 def run(ctx, res):
@@ -328,6 +351,7 @@ def run(ctx, res):
             key = types_factory.types_map.get(nm, "text")
             res.corr("TypesFactory.for_property", nm, [key, types_factory[key].__name__], m)
     setter_histories(ctx, res, common.rng_for(ctx.seed, "c02-setters"))
+    shared_values(ctx, res, common.rng_for(ctx.seed, "c02-shared"))
     res.sample({"calendar": text[:500]})
 
 
